@@ -14,7 +14,9 @@ def c16 (ups : List CUpdate) (o : CbObs) : Option String :=
   match ups.reverse with
   | [] => if o.isEmpty then none else some "C16: breaker configured before any update"
   | latest :: earlier =>
-    let names := (ups.flatMap (fun u => u.map (·.1))).eraseDups
+    -- every cluster the updates name AND every cluster the breaker has an entry for (an enabled entry that no update seen
+    -- by this breaker accounts for - e.g. a stale cache entry replayed to a late breaker - is a failure too)
+    let names := (ups.flatMap (fun u => u.map (·.1)) ++ o.map (·.1)).eraseDups
     let bad := names.filterMap (fun c =>
       let got := (o.find? (fun e => e.1 = c)).map (·.2)
       let want : Option (Bool × Nat × Nat) :=
@@ -27,7 +29,7 @@ def c16 (ups : List CUpdate) (o : CbObs) : Option String :=
       | some (false, _, _), some (false, _, _) => none
       | some (false, _, _), some (true, t', v') => some s!"C16.cb_latest: {c} must be disabled by the latest update, is enabled {t'}/100 min {v'}"
       | some (false, _, _), none => some s!"C16.cb_latest: {c} was configured earlier and must now be disabled, has no entry"
-      | none, some (true, _, _) => some s!"C16: {c} was never configured but is enabled"
+      | none, some (true, t', v') => some s!"C16.cb_latest: {c} is enabled {t'}/100 min {v'} although no update this breaker starts from / has seen configures it (the latest cluster state does not contain it)"
       | none, _ => none)
     bad.head?
 
